@@ -1,0 +1,446 @@
+//go:build verif
+
+// Contracts for the streaming decoder and encoder, one variant per dynamic type of the value (comment-only; installed
+// by /verif/gcv gen-contracts). Acceptance-implies-check: Decode / encode / encodeRaw return nil only if every read
+// or write and every element or point codec they called succeeded - no error of an earlier item of a slice or of an
+// inner vector is overwritten by the outcome of a later one - and a point is written as exactly the bytes its own
+// Bytes / RawBytes method returned. Readers, writers and codecs are opaque calls whose error results are captured
+// at every call ("#*"); the loops carry "no failure so far". The slices-of-points cases of the decoder (parallel
+// recovery of Y) and the reflection fallback are not under contract.
+
+package starkcurve
+
+//@ func Decoder.Decode
+//@ variant fr-element
+//@ dyntype v *fr.Element
+//@ layer ring fr.Element fp.Element
+//@ option opaque-calls
+//@ option nomerge
+//@ ghost failed = false
+//@ cut after call ReadFull #*
+//@ + ghost failed = failed || !isnil(callresult1)
+//@ cut after call SetBytesCanonical #*
+//@ + ghost failed = failed || !isnil(callresult)
+//@ loop 0
+//@ + invariant[index] 0 <= iter && iter <= 1099511627776
+//@ + invariant[no-failure-so-far] !failed
+//@ loop 1
+//@ + invariant[index] 0 <= iter && iter <= 1099511627776
+//@ + invariant[no-failure-so-far] !failed
+//@ loop 2
+//@ + invariant[index] 0 <= iter && iter <= 1099511627776
+//@ + invariant[no-failure-so-far] !failed
+//@ loop 3
+//@ + invariant[index] 0 <= iter && iter <= 1099511627776
+//@ + invariant[no-failure-so-far] !failed
+//@ ensures[no-hidden-error] isnil(err) ==> !failed
+//@ modifies dec, v
+//@ end
+
+//@ func Decoder.Decode
+//@ variant fp-element
+//@ dyntype v *fp.Element
+//@ layer ring fr.Element fp.Element
+//@ option opaque-calls
+//@ option nomerge
+//@ ghost failed = false
+//@ cut after call ReadFull #*
+//@ + ghost failed = failed || !isnil(callresult1)
+//@ cut after call SetBytesCanonical #*
+//@ + ghost failed = failed || !isnil(callresult)
+//@ loop 0
+//@ + invariant[index] 0 <= iter && iter <= 1099511627776
+//@ + invariant[no-failure-so-far] !failed
+//@ loop 1
+//@ + invariant[index] 0 <= iter && iter <= 1099511627776
+//@ + invariant[no-failure-so-far] !failed
+//@ loop 2
+//@ + invariant[index] 0 <= iter && iter <= 1099511627776
+//@ + invariant[no-failure-so-far] !failed
+//@ loop 3
+//@ + invariant[index] 0 <= iter && iter <= 1099511627776
+//@ + invariant[no-failure-so-far] !failed
+//@ ensures[no-hidden-error] isnil(err) ==> !failed
+//@ modifies dec, v
+//@ end
+
+//@ func Decoder.Decode
+//@ variant fr-vector
+//@ dyntype v *[]fr.Element
+//@ layer ring fr.Element fp.Element
+//@ option opaque-calls
+//@ option nomerge
+//@ ghost failed = false
+//@ cut after call readUint32 #*
+//@ + ghost failed = failed || !isnil(callresult1)
+//@ cut after call ReadFull #*
+//@ + ghost failed = failed || !isnil(callresult1)
+//@ cut after call SetBytesCanonical #*
+//@ + ghost failed = failed || !isnil(callresult)
+//@ loop 0
+//@ + invariant[index] 0 <= iter && iter <= 1099511627776
+//@ + invariant[no-failure-so-far] !failed
+//@ loop 1
+//@ + invariant[index] 0 <= iter && iter <= 1099511627776
+//@ + invariant[no-failure-so-far] !failed
+//@ loop 2
+//@ + invariant[index] 0 <= iter && iter <= 1099511627776
+//@ + invariant[no-failure-so-far] !failed
+//@ loop 3
+//@ + invariant[index] 0 <= iter && iter <= 1099511627776
+//@ + invariant[no-failure-so-far] !failed
+//@ ensures[no-hidden-error] isnil(err) ==> !failed
+//@ modifies dec, v
+//@ end
+
+//@ func Decoder.Decode
+//@ variant fp-vector
+//@ dyntype v *[]fp.Element
+//@ layer ring fr.Element fp.Element
+//@ option opaque-calls
+//@ option nomerge
+//@ ghost failed = false
+//@ cut after call readUint32 #*
+//@ + ghost failed = failed || !isnil(callresult1)
+//@ cut after call ReadFull #*
+//@ + ghost failed = failed || !isnil(callresult1)
+//@ cut after call SetBytesCanonical #*
+//@ + ghost failed = failed || !isnil(callresult)
+//@ loop 0
+//@ + invariant[index] 0 <= iter && iter <= 1099511627776
+//@ + invariant[no-failure-so-far] !failed
+//@ loop 1
+//@ + invariant[index] 0 <= iter && iter <= 1099511627776
+//@ + invariant[no-failure-so-far] !failed
+//@ loop 2
+//@ + invariant[index] 0 <= iter && iter <= 1099511627776
+//@ + invariant[no-failure-so-far] !failed
+//@ loop 3
+//@ + invariant[index] 0 <= iter && iter <= 1099511627776
+//@ + invariant[no-failure-so-far] !failed
+//@ ensures[no-hidden-error] isnil(err) ==> !failed
+//@ modifies dec, v
+//@ end
+
+//@ func Decoder.Decode
+//@ variant g1-point
+//@ dyntype v *G1Affine
+//@ layer ring fr.Element fp.Element
+//@ option opaque-calls
+//@ option nomerge
+//@ ghost failed = false
+//@ cut after call ReadFull #*
+//@ + ghost failed = failed || !isnil(callresult1)
+//@ cut after call setBytes #*
+//@ + ghost failed = failed || !isnil(callresult1)
+//@ loop 0
+//@ + invariant[index] 0 <= iter && iter <= 1099511627776
+//@ + invariant[no-failure-so-far] !failed
+//@ loop 1
+//@ + invariant[index] 0 <= iter && iter <= 1099511627776
+//@ + invariant[no-failure-so-far] !failed
+//@ loop 2
+//@ + invariant[index] 0 <= iter && iter <= 1099511627776
+//@ + invariant[no-failure-so-far] !failed
+//@ loop 3
+//@ + invariant[index] 0 <= iter && iter <= 1099511627776
+//@ + invariant[no-failure-so-far] !failed
+//@ ensures[no-hidden-error] isnil(err) ==> !failed
+//@ modifies dec, v
+//@ end
+
+//@ func Encoder.encode
+//@ variant fr-element
+//@ dyntype v *fr.Element
+//@ layer ring fr.Element fp.Element
+//@ option opaque-calls
+//@ option nomerge
+//@ option struct-slices
+//@ ghost failed = false
+//@ cut after call io.Writer.Write #*
+//@ + ghost failed = failed || !isnil(callresult1)
+//@ loop 0
+//@ + invariant[index] 0 <= iter && iter <= 1099511627776
+//@ + invariant[no-failure-so-far] !failed
+//@ loop 1
+//@ + invariant[index] 0 <= iter && iter <= 1099511627776
+//@ + invariant[no-failure-so-far] !failed
+//@ loop 2
+//@ + invariant[index] 0 <= iter && iter <= 1099511627776
+//@ + invariant[no-failure-so-far] !failed
+//@ ensures[no-hidden-error] isnil(err) ==> !failed
+//@ modifies enc
+//@ end
+
+//@ func Encoder.encode
+//@ variant fp-element
+//@ dyntype v *fp.Element
+//@ layer ring fr.Element fp.Element
+//@ option opaque-calls
+//@ option nomerge
+//@ option struct-slices
+//@ ghost failed = false
+//@ cut after call io.Writer.Write #*
+//@ + ghost failed = failed || !isnil(callresult1)
+//@ loop 0
+//@ + invariant[index] 0 <= iter && iter <= 1099511627776
+//@ + invariant[no-failure-so-far] !failed
+//@ loop 1
+//@ + invariant[index] 0 <= iter && iter <= 1099511627776
+//@ + invariant[no-failure-so-far] !failed
+//@ loop 2
+//@ + invariant[index] 0 <= iter && iter <= 1099511627776
+//@ + invariant[no-failure-so-far] !failed
+//@ ensures[no-hidden-error] isnil(err) ==> !failed
+//@ modifies enc
+//@ end
+
+//@ func Encoder.encode
+//@ variant fr-vector
+//@ dyntype v []fr.Element
+//@ layer ring fr.Element fp.Element
+//@ option opaque-calls
+//@ option nomerge
+//@ option struct-slices
+//@ ghost failed = false
+//@ cut after call binary.Write #*
+//@ + ghost failed = failed || !isnil(callresult)
+//@ cut after call io.Writer.Write #*
+//@ + ghost failed = failed || !isnil(callresult1)
+//@ loop 0
+//@ + invariant[index] 0 <= iter && iter <= 1099511627776
+//@ + invariant[no-failure-so-far] !failed
+//@ loop 1
+//@ + invariant[index] 0 <= iter && iter <= 1099511627776
+//@ + invariant[no-failure-so-far] !failed
+//@ loop 2
+//@ + invariant[index] 0 <= iter && iter <= 1099511627776
+//@ + invariant[no-failure-so-far] !failed
+//@ ensures[no-hidden-error] isnil(err) ==> !failed
+//@ modifies enc
+//@ end
+
+//@ func Encoder.encode
+//@ variant fp-vector
+//@ dyntype v []fp.Element
+//@ layer ring fr.Element fp.Element
+//@ option opaque-calls
+//@ option nomerge
+//@ option struct-slices
+//@ ghost failed = false
+//@ cut after call binary.Write #*
+//@ + ghost failed = failed || !isnil(callresult)
+//@ cut after call io.Writer.Write #*
+//@ + ghost failed = failed || !isnil(callresult1)
+//@ loop 0
+//@ + invariant[index] 0 <= iter && iter <= 1099511627776
+//@ + invariant[no-failure-so-far] !failed
+//@ loop 1
+//@ + invariant[index] 0 <= iter && iter <= 1099511627776
+//@ + invariant[no-failure-so-far] !failed
+//@ loop 2
+//@ + invariant[index] 0 <= iter && iter <= 1099511627776
+//@ + invariant[no-failure-so-far] !failed
+//@ ensures[no-hidden-error] isnil(err) ==> !failed
+//@ modifies enc
+//@ end
+
+//@ func Encoder.encode
+//@ variant g1-point
+//@ dyntype v *G1Affine
+//@ layer ring fr.Element fp.Element
+//@ option opaque-calls
+//@ option nomerge
+//@ option struct-slices
+//@ ghost failed = false
+//@ cut after call io.Writer.Write #*
+//@ + ghost failed = failed || !isnil(callresult1)
+//@ cut before call io.Writer.Write #*
+//@ + invariant[bytes-of-the-point] len(callarg1) == len(resultof_Bytes) && forall(j, 0, len(resultof_Bytes), callarg1[j] == resultof_Bytes[j])
+//@ loop 0
+//@ + invariant[index] 0 <= iter && iter <= 1099511627776
+//@ + invariant[no-failure-so-far] !failed
+//@ loop 1
+//@ + invariant[index] 0 <= iter && iter <= 1099511627776
+//@ + invariant[no-failure-so-far] !failed
+//@ loop 2
+//@ + invariant[index] 0 <= iter && iter <= 1099511627776
+//@ + invariant[no-failure-so-far] !failed
+//@ ensures[no-hidden-error] isnil(err) ==> !failed
+//@ modifies enc
+//@ end
+
+//@ func Encoder.encode
+//@ variant g1-points
+//@ dyntype v []G1Affine
+//@ layer ring fr.Element fp.Element
+//@ option opaque-calls
+//@ option nomerge
+//@ option struct-slices
+//@ ghost failed = false
+//@ cut after call binary.Write #*
+//@ + ghost failed = failed || !isnil(callresult)
+//@ cut after call io.Writer.Write #*
+//@ + ghost failed = failed || !isnil(callresult1)
+//@ cut before call io.Writer.Write #*
+//@ + invariant[bytes-of-the-point] len(callarg1) == len(resultof_Bytes) && forall(j, 0, len(resultof_Bytes), callarg1[j] == resultof_Bytes[j])
+//@ loop 0
+//@ + invariant[index] 0 <= iter && iter <= 1099511627776
+//@ + invariant[no-failure-so-far] !failed
+//@ loop 1
+//@ + invariant[index] 0 <= iter && iter <= 1099511627776
+//@ + invariant[no-failure-so-far] !failed
+//@ loop 2
+//@ + invariant[index] 0 <= iter && iter <= 1099511627776
+//@ + invariant[no-failure-so-far] !failed
+//@ ensures[no-hidden-error] isnil(err) ==> !failed
+//@ modifies enc
+//@ end
+
+//@ func Encoder.encodeRaw
+//@ variant fr-element
+//@ dyntype v *fr.Element
+//@ layer ring fr.Element fp.Element
+//@ option opaque-calls
+//@ option nomerge
+//@ option struct-slices
+//@ ghost failed = false
+//@ cut after call io.Writer.Write #*
+//@ + ghost failed = failed || !isnil(callresult1)
+//@ loop 0
+//@ + invariant[index] 0 <= iter && iter <= 1099511627776
+//@ + invariant[no-failure-so-far] !failed
+//@ loop 1
+//@ + invariant[index] 0 <= iter && iter <= 1099511627776
+//@ + invariant[no-failure-so-far] !failed
+//@ loop 2
+//@ + invariant[index] 0 <= iter && iter <= 1099511627776
+//@ + invariant[no-failure-so-far] !failed
+//@ ensures[no-hidden-error] isnil(err) ==> !failed
+//@ modifies enc
+//@ end
+
+//@ func Encoder.encodeRaw
+//@ variant fp-element
+//@ dyntype v *fp.Element
+//@ layer ring fr.Element fp.Element
+//@ option opaque-calls
+//@ option nomerge
+//@ option struct-slices
+//@ ghost failed = false
+//@ cut after call io.Writer.Write #*
+//@ + ghost failed = failed || !isnil(callresult1)
+//@ loop 0
+//@ + invariant[index] 0 <= iter && iter <= 1099511627776
+//@ + invariant[no-failure-so-far] !failed
+//@ loop 1
+//@ + invariant[index] 0 <= iter && iter <= 1099511627776
+//@ + invariant[no-failure-so-far] !failed
+//@ loop 2
+//@ + invariant[index] 0 <= iter && iter <= 1099511627776
+//@ + invariant[no-failure-so-far] !failed
+//@ ensures[no-hidden-error] isnil(err) ==> !failed
+//@ modifies enc
+//@ end
+
+//@ func Encoder.encodeRaw
+//@ variant fr-vector
+//@ dyntype v []fr.Element
+//@ layer ring fr.Element fp.Element
+//@ option opaque-calls
+//@ option nomerge
+//@ option struct-slices
+//@ ghost failed = false
+//@ cut after call binary.Write #*
+//@ + ghost failed = failed || !isnil(callresult)
+//@ cut after call io.Writer.Write #*
+//@ + ghost failed = failed || !isnil(callresult1)
+//@ loop 0
+//@ + invariant[index] 0 <= iter && iter <= 1099511627776
+//@ + invariant[no-failure-so-far] !failed
+//@ loop 1
+//@ + invariant[index] 0 <= iter && iter <= 1099511627776
+//@ + invariant[no-failure-so-far] !failed
+//@ loop 2
+//@ + invariant[index] 0 <= iter && iter <= 1099511627776
+//@ + invariant[no-failure-so-far] !failed
+//@ ensures[no-hidden-error] isnil(err) ==> !failed
+//@ modifies enc
+//@ end
+
+//@ func Encoder.encodeRaw
+//@ variant fp-vector
+//@ dyntype v []fp.Element
+//@ layer ring fr.Element fp.Element
+//@ option opaque-calls
+//@ option nomerge
+//@ option struct-slices
+//@ ghost failed = false
+//@ cut after call binary.Write #*
+//@ + ghost failed = failed || !isnil(callresult)
+//@ cut after call io.Writer.Write #*
+//@ + ghost failed = failed || !isnil(callresult1)
+//@ loop 0
+//@ + invariant[index] 0 <= iter && iter <= 1099511627776
+//@ + invariant[no-failure-so-far] !failed
+//@ loop 1
+//@ + invariant[index] 0 <= iter && iter <= 1099511627776
+//@ + invariant[no-failure-so-far] !failed
+//@ loop 2
+//@ + invariant[index] 0 <= iter && iter <= 1099511627776
+//@ + invariant[no-failure-so-far] !failed
+//@ ensures[no-hidden-error] isnil(err) ==> !failed
+//@ modifies enc
+//@ end
+
+//@ func Encoder.encodeRaw
+//@ variant g1-point
+//@ dyntype v *G1Affine
+//@ layer ring fr.Element fp.Element
+//@ option opaque-calls
+//@ option nomerge
+//@ option struct-slices
+//@ ghost failed = false
+//@ cut after call io.Writer.Write #*
+//@ + ghost failed = failed || !isnil(callresult1)
+//@ cut before call io.Writer.Write #*
+//@ + invariant[bytes-of-the-point] len(callarg1) == len(resultof_RawBytes) && forall(j, 0, len(resultof_RawBytes), callarg1[j] == resultof_RawBytes[j])
+//@ loop 0
+//@ + invariant[index] 0 <= iter && iter <= 1099511627776
+//@ + invariant[no-failure-so-far] !failed
+//@ loop 1
+//@ + invariant[index] 0 <= iter && iter <= 1099511627776
+//@ + invariant[no-failure-so-far] !failed
+//@ loop 2
+//@ + invariant[index] 0 <= iter && iter <= 1099511627776
+//@ + invariant[no-failure-so-far] !failed
+//@ ensures[no-hidden-error] isnil(err) ==> !failed
+//@ modifies enc
+//@ end
+
+//@ func Encoder.encodeRaw
+//@ variant g1-points
+//@ dyntype v []G1Affine
+//@ layer ring fr.Element fp.Element
+//@ option opaque-calls
+//@ option nomerge
+//@ option struct-slices
+//@ ghost failed = false
+//@ cut after call binary.Write #*
+//@ + ghost failed = failed || !isnil(callresult)
+//@ cut after call io.Writer.Write #*
+//@ + ghost failed = failed || !isnil(callresult1)
+//@ cut before call io.Writer.Write #*
+//@ + invariant[bytes-of-the-point] len(callarg1) == len(resultof_RawBytes) && forall(j, 0, len(resultof_RawBytes), callarg1[j] == resultof_RawBytes[j])
+//@ loop 0
+//@ + invariant[index] 0 <= iter && iter <= 1099511627776
+//@ + invariant[no-failure-so-far] !failed
+//@ loop 1
+//@ + invariant[index] 0 <= iter && iter <= 1099511627776
+//@ + invariant[no-failure-so-far] !failed
+//@ loop 2
+//@ + invariant[index] 0 <= iter && iter <= 1099511627776
+//@ + invariant[no-failure-so-far] !failed
+//@ ensures[no-hidden-error] isnil(err) ==> !failed
+//@ modifies enc
+//@ end
